@@ -70,6 +70,8 @@ func gcsConcOp(kind, who string, n j.B) gcs.Op {
 	case "composeIfGen":
 		nc.Gm = gcs.Cond{K: "val", Sym: "cur"}
 		return gcs.Op{Ev: "Compose", B: concBucket, N: n, Srcs: []gcs.Src{{N: j.S("src1"), Gm: gcs.Unset()}, {N: j.S("src2"), Gm: gcs.Unset()}}, Attrs: []gcs.KV{{K: "ct", V: j.S("text/" + who)}}, Conds: nc}
+	case "composeAppend": // the append idiom: the destination is its own first source
+		return gcs.Op{Ev: "Compose", B: concBucket, N: n, Srcs: []gcs.Src{{N: n, Gm: gcs.Unset()}, {N: j.S("src1"), Gm: gcs.Unset()}}, Attrs: []gcs.KV{{K: "ct", V: j.S("text/" + who)}}, Conds: nc}
 	case "composeIfAbsent":
 		nc.Gm = gcs.Cond{K: "val", Sym: "zero"}
 		return gcs.Op{Ev: "Compose", B: concBucket, N: n, Srcs: []gcs.Src{{N: j.S("src2"), Gm: gcs.Unset()}, {N: j.S("src1"), Gm: gcs.Unset()}}, Attrs: []gcs.KV{{K: "ct", V: j.S("text/" + who)}}, Conds: nc}
@@ -369,11 +371,11 @@ func checkC07(c *Ctx) {
 			var procs []gcsconc.Proc
 			// the writers of the protocol model stand for every kind of request that commits under the object lock:
 			// in two of three jobs one writer is a compose onto, or a copy from another bucket onto, the same object
-			subst := map[string][2]string{"putIfGen": {"composeIfGen", "xcopy"}, "putIfAbsent": {"composeIfAbsent", "xcopy"}, "put": {"composeIfGen", "xcopy"}}
+			subst := map[string][3]string{"putIfGen": {"composeIfGen", "xcopy", "composeAppend"}, "putIfAbsent": {"composeIfAbsent", "xcopy", "composeIfAbsent"}, "put": {"composeIfGen", "xcopy", "composeAppend"}}
 			substituted := false
 			for i, k := range gcsMixKinds[mix] {
-				if alt, ok := subst[k]; ok && !substituted && n%3 != 0 && (i+n/3)%2 == 0 {
-					k = alt[n%3-1]
+				if alt, ok := subst[k]; ok && !substituted && n%4 != 0 && (i+n/4)%2 == 0 {
+					k = alt[n%4-1]
 					substituted = true
 				}
 				procs = append(procs, gcsconc.Proc{Name: procName(i + 1), Op: gcsConcOp(k, procName(i+1), concObj)})
@@ -404,7 +406,7 @@ func checkC07(c *Ctx) {
 	if !c.Quick() {
 		nStress = 300
 	}
-	kinds := []string{"put", "patch", "get", "putIfGen", "del", "compose", "copy", "patchIfMeta", "get", "put", "putIfAbsent", "patch", "get", "delIfGen"}
+	kinds := []string{"put", "patch", "get", "putIfGen", "del", "compose", "copy", "patchIfMeta", "get", "put", "putIfAbsent", "patch", "get", "delIfGen", "composeAppend", "composeAppend"}
 	for i := 0; i < nStress; i++ {
 		var procs []gcsconc.Proc
 		n := 8 + r.Intn(7)
